@@ -27,7 +27,7 @@ META = dict(
           "TableCollection.load, TreeSequence.load_tables with and without build_indexes, low-level load_tables positional and "
           "keyword, copy / pickle / fromdict of the collection). Distinct = sha1(rows, operator labels, index); non-trivial when at "
           "least one operator or a user index was applied."),
-    REQUIRED=["gate-calls:tree_sequence", "gate-calls:tskit.load", "rows-unchanged-checks", "accepted-usable",
+    REQUIRED=["fileindex:loads", "gate-calls:tree_sequence", "gate-calls:tskit.load", "rows-unchanged-checks", "accepted-usable",
               "verdict-checks:accept", "verdict-checks:reject", "gate-calls:tree_sequence(again)", "gate-calls:load_tables(tc)",
               "gate-calls:load_tables(tc,build_indexes=True)", "gate-calls:copy().tree_sequence"],
     ASSUMPTIONS=ASSUME_COMMON + ["requirements the documentation has but the statement does not list (mutation.parent is the mutation "
